@@ -39,6 +39,7 @@ def required_cells(tier):
     for t in TYPES:
         req["exact:" + t] = 100
     req["promotion"] = 125
+    req["promotion:non-dyadic-float"] = 30
     for t in ("int", "float", "Fraction"):
         req["numeric:" + t] = 200
     for rel in ("generic", "parallel", "antiparallel", "perpendicular"):
@@ -54,6 +55,9 @@ def cases(rng, budget, widx, nworkers, tier):
     for i, combo in enumerate(itertools.product(TYPES, repeat=3)):
         if i % nworkers == widx:
             yield {"k": "promotion", "types": list(combo), "vals": [rng.randint(-5, 5) for _ in range(3)], "ctor": i % 4}
+            if "float" in combo and "user" not in combo:
+                yield {"k": "promotion", "types": list(combo), "vals": [rng.randint(-5, 5) for _ in range(3)], "ctor": (i + 1) % 4,
+                       "nd": [rng.choice((0.1, 0.3, 0.7, -0.9)) for _ in range(3)]}
     while True:
         r = rng.random()
         if r < 0.4:
@@ -213,6 +217,10 @@ def judge(case):
         mu.cell("promotion")
         ts, vals = case["types"], case["vals"]
         items = [_mkval(t, v) for t, v in zip(ts, vals)]
+        if case.get("nd"):
+            # floats that are not dyadic (0.1, 0.3, 2.7): promotion must carry the float's exact value over
+            items = [(x + case["nd"][j] if isinstance(x, float) else x) for j, x in enumerate(items)]
+            mu.cell("promotion:non-dyadic-float")
         want_t = PYT[min(ts, key=lambda t: RANK[t])]
         ctor = case["ctor"]
         try:
@@ -234,8 +242,11 @@ def judge(case):
             return mu.result()
         if any(type(x) is not want_t for x in o):
             mu.fail("promotion:wrong-type/%s" % "+".join(sorted(set(ts))), "components %r of types %s; expected all %s" % (o, [type(x).__name__ for x in o], want_t.__name__))
-        elif not all(_same(x, Poly(F(v)) if want_t is Poly else v) for x, v in zip(o, vals)):
-            mu.fail("promotion:value-changed", "components %r from values %r" % (o, vals))
+        else:
+            def exact(z):
+                return z if isinstance(z, Poly) else Poly(F(z))
+            if not all(exact(x).same(exact(it)) for x, it in zip(o, items)):
+                mu.fail("promotion:value-changed", "components %r from items %r: promotion changed a value" % (o, items))
         return mu.result()
     if k == "exact":
         t = case["t"]
